@@ -202,6 +202,8 @@ def report_violations(rep, viol, where):
         w.update({'found_by': where, 'formula': v['formula'], 'witnesses_of_this_kind': v['n'],
                   'replay_hint': 'labels are RollLog.tla labels (a, o, x, y); ./check C13 --replay <this file>'})
         rep.violation(f'{v["formula"]}: {v["text"]} [{where}; {v["n"]} witnesses of this kind]', w, v['sig'])
+        kinds = rep.extra.setdefault('violation_kinds', {})
+        kinds[f'{where}: {key}'] = v['n']
 
 
 def run(ctx):
@@ -221,6 +223,10 @@ def run(ctx):
         'environment assumption of the intended design: a writer restarted on a directory from which the newest files '
         'were deleted is not handed a timestamp <= those deleted names',
         'a None from read() is only judged when the call left the reader unchanged (then polling again cannot help)']
+    for f in os.listdir(os.path.join(common.OUT, 'replays', ctx.prop)) \
+            if os.path.isdir(os.path.join(common.OUT, 'replays', ctx.prop)) else ():
+        if f.startswith(f'{ctx.tier}_{ctx.seed}_'):
+            os.unlink(os.path.join(common.OUT, 'replays', ctx.prop, f))     # witnesses of an earlier run
     sd = SpecDir()
     pool = mp.get_context('fork').Pool(NCPU)
     tpool = ThreadPoolExecutor(max_workers=12)
@@ -233,10 +239,13 @@ def run(ctx):
         present = []
         dfuts = []
         for d in ALL_DEFECTS:
-            # every switch on (the labels then mean what they mean for the code), the other deviation kept out of
-            # the way: the refresh_skip counterexample is searched among histories with strictly increasing names
-            n = sd.derive('RollLogCover_r1', f'Defect_{d}', defects=[d] if d == 'overwrite' else ALL_DEFECTS,
-                          props=True, emit=False, extra='' if d == 'overwrite' else 'ACTION_CONSTRAINT MonoNames\n')
+            # "overwrite": that switch alone.  Any other: all switches on (labels then mean for the model what they
+            # mean for the code) in the sub-specification SpecM whose roll-overs only go to strictly newer names.
+            n = sd.derive('RollLogExhibit', f'Defect_{d}', defects=[d] if d == 'overwrite' else ALL_DEFECTS)
+            if d != 'overwrite':
+                cf = os.path.join(sd.d, n + '.cfg')
+                txt = open(cf).read().replace('SPECIFICATION SpecC', 'SPECIFICATION SpecM')
+                open(cf, 'w').write(txt)
             dfuts.append((d, n, tpool.submit(run_tlc, sd.d, n, 'RollLogCover', workers=nw, timeout=1200)))
         for d, n, fut in dfuts:
             res = fut.result()
